@@ -8,6 +8,7 @@ pub mod c02;
 pub mod c03;
 pub mod c04;
 pub mod c06;
+pub mod c08;
 pub mod c10;
 pub mod c11;
 pub mod c14;
@@ -45,6 +46,7 @@ pub fn run(id: &str, tier: Tier) -> i32 {
         "C03" => c03::run(tier),
         "C04" => c04::run(tier),
         "C06" => c06::run(tier),
+        "C08" => c08::run(tier),
         "C10" => c10::run(tier),
         "C11" => c11::run(tier),
         "C14" => c14::run(tier),
@@ -64,6 +66,7 @@ pub fn replay(id: &str, file: &serde_json::Value) -> i32 {
         "C03" => c03::replay,
         "C04" => c04::replay,
         "C06" => c06::replay,
+        "C08" => c08::replay,
         "C10" => c10::replay,
         "C11" => c11::replay,
         "C14" => c14::replay,
